@@ -6,7 +6,15 @@
 //   P <x y z hex>*           positions of all node slots (unused slots as '-')
 //   M <x y z hex>*           momenta
 //   T <n1 n2 n3 type>*       live triangles in slot order
-// usage: h_solver <param.xml> <iters> <threads> <dump_every> [tx ty tz (hex)] [full|run]
+// with the mode word `tissue` (C14, assembled tissue iteration) every cell is followed by five more lines
+// (CONTACT_MODEL_INDEX 1 only):
+//   N <x y z hex>*           node::normal_ of all node slots (unused slots as '-')
+//   V <hex>*                 node::curvature_
+//   Q <cell node>*           node::coupled_node_ ('- -' when empty or unused)
+//   D <hex>*                 node::squared_distance_to_closest_node_
+//   F <x y z hex>*           node::force_
+//   A <nx ny nz area hex>*   cached face::normal_ and face::area_ of the live triangles in slot order
+// usage: h_solver <param.xml> <iters> <threads> <dump_every> [tx ty tz (hex)] [full|run|tissue]
 #include "proto.hpp"
 #include "simulation_initializer.hpp"
 #include "solver.hpp"
@@ -41,6 +49,39 @@ public:
             if(f.is_used_) std::cout << ' ' << f.n1_id_ << ' ' << f.n2_id_ << ' ' << f.n3_id_ << ' ' << f.type_id_;
         }
         std::cout << '\n';
+    }
+    // the additional state read by the next contact phase (mode `tissue`)
+    static void dump_contact_state(cell_ptr c){
+        #if CONTACT_MODEL_INDEX == 1
+        std::cout << "N";
+        for(const node& n : c->node_lst_){
+            if(n.is_used_) std::cout << ' ' << to_hex(n.normal_.dx()) << ' ' << to_hex(n.normal_.dy()) << ' ' << to_hex(n.normal_.dz());
+            else std::cout << " - - -";
+        }
+        std::cout << "\nV";
+        for(const node& n : c->node_lst_){
+            if(n.is_used_) std::cout << ' ' << to_hex(n.curvature_); else std::cout << " -";
+        }
+        std::cout << "\nQ";
+        for(const node& n : c->node_lst_){
+            if(n.is_used_ && n.coupled_node_.has_value()) std::cout << ' ' << n.coupled_node_.value().first << ' ' << n.coupled_node_.value().second;
+            else std::cout << " - -";
+        }
+        std::cout << "\nD";
+        for(const node& n : c->node_lst_){
+            if(n.is_used_) std::cout << ' ' << to_hex(n.squared_distance_to_closest_node_); else std::cout << " -";
+        }
+        std::cout << "\nF";
+        for(const node& n : c->node_lst_){
+            if(n.is_used_) std::cout << ' ' << to_hex(n.force_.dx()) << ' ' << to_hex(n.force_.dy()) << ' ' << to_hex(n.force_.dz());
+            else std::cout << " - - -";
+        }
+        std::cout << "\nA";
+        for(const face& f : c->face_lst_){
+            if(f.is_used_) std::cout << ' ' << to_hex(f.normal_.dx()) << ' ' << to_hex(f.normal_.dy()) << ' ' << to_hex(f.normal_.dz()) << ' ' << to_hex(f.area_);
+        }
+        std::cout << '\n';
+        #endif
     }
 };
 
@@ -81,7 +122,7 @@ int main(int argc, char** argv){
                 for(int i = 0; i <= iters; i++){
                     if(i % every == 0 || i == iters){
                         std::cout << "S " << s.iteration() << ' ' << to_hex(s.time()) << ' ' << s.get_cell_lst().size() << '\n';
-                        for(cell_ptr c : s.get_cell_lst()) cell_tester::dump(c, true);
+                        for(cell_ptr c : s.get_cell_lst()){ cell_tester::dump(c, true); if(mode == "tissue") cell_tester::dump_contact_state(c); }
                     }
                     if(i == iters || s.get_cell_lst().empty()) break;
                     s.run_iteration();
